@@ -98,6 +98,8 @@ func ReadInput(path string) (*Input, error) {
 	return in, nil
 }
 
+func jsonUnmarshal(b []byte, v any) error { return json.Unmarshal(b, v) }
+
 func WriteResult(path string, r *Result) error {
 	if r.Violations == nil {
 		r.Violations = []Violation{}
